@@ -28,12 +28,14 @@ Oracle (independent of the model, from the statement): let N = named paths.
 
     The same call repeated versions nothing more (idempotence, observed only).
 
-Findings on the unchanged code (families computed from the failing case):
-    git-tree-named-control-file: GitWorkingTree.smart_add versions an explicitly named file
-      inside .git (bzr raises ForbiddenControlFileError); the model has a flag for the repaired
-      behaviour and the harness probes which one the tree implements (`git_fmt_char`);
+Found by this check: GitWorkingTree.smart_add versioned an explicitly named file inside .git
+    (repaired in /repo, fix: 31d8912; not classified any more - a recurrence is a plain VIOLATION;
+    the model keeps the flag `gitRefusesCtl`, probed by `git_fmt_char`).
+Known finding (family computed from the failing case, committed in known_findings.json):
     bzr-named-dir-below-blocked-named-dir: `add D0 D` with D inside D0 and a nested tree or
       conflict helper between them: D is dropped from the scan list and never scanned.
+SCENARIOS pins layouts every seed must cover (ignored directory whose files are not themselves
+ignored in a git and a bzr tree; helper files; nested trees; a named control file).
 
 Mutants this was built against (scratch worktree; caught by the oracle with a concrete case):
   m1 bzr walk: ignored *directories* no longer skipped (`and not isdir`)      -> needs an ignored dir with content
@@ -356,9 +358,8 @@ def run_layout(ctx, spec, viol, cases, lines, outs, choices=None):
                                  % (sorted(again - after), sorted(after - again)), None))
             ctl_named = [n for n in names if n == own_ctl or n.startswith(own_ctl + "/")]
             if any(n in after for n in ctl_named):
-                fam = "git-tree-named-control-file" if fmt == "git" and all(
-                    info.get(n, (0, "f"))[1] != "d" for n in ctl_named if n in after) else None
-                viol.append((case, "control file(s) %r became versioned" % [n for n in ctl_named if n in after], fam))
+                # repaired in /repo (31d8912): a recurrence is a plain violation
+                viol.append((case, "control file(s) %r became versioned" % [n for n in ctl_named if n in after], None))
             elif all(n == "." or n in info for n in names):
                 want = expected_by_statement(fmt, info, nroots, own_ctl, names, recurse, before)
                 want_new = set(w for w in want if w not in before)
@@ -410,8 +411,37 @@ def run_layout(ctx, spec, viol, cases, lines, outs, choices=None):
     shutil.rmtree(base, ignore_errors=True)
 
 
+def _sc(fmt, entries, rules=(), conflicts=()):
+    return dict(fmt=fmt, entries=[list(e) for e in entries], rules=list(rules), ignore_versioned=True,
+                conflicts=[list(c) for c in conflicts])
+
+
+# fixed layouts + calls, run first on every seed
+SCENARIOS = [
+    # git: `old~` is ignored by the user rule *~ but old~/a is not; `ig/` by a tree rule; helper files; nested trees
+    (_sc("git", [["v", "f", True], ["old~", "d", False], ["old~/a", "f", False], ["old~/s", "d", False],
+                 ["old~/s/b.txt", "f", False], ["ig", "d", False], ["ig/k", "f", True], ["ig/new", "f", False],
+                 ["m", "f", True], ["m.THIS", "f", False], ["m.BASE", "f", False], ["m.OTHER", "f", False],
+                 ["n", "d", False], ["n/.git", "G", False], ["n/x", "f", False],
+                 ["b", "d", False], ["b/.bzr", "B", False], ["b/x", "f", False], ["u", "f", False]],
+         ["ig/"], [["text", "m"]]),
+     [(["."], True), (["old~"], True), (["old~/a", "ig"], True), ([".git/HEAD"], False), (["n"], True), (["b", "u"], True)]),
+    (_sc("2a", [["v", "f", True], ["old~", "d", False], ["old~/a", "f", False], ["build", "d", True],
+                ["build/k", "f", True], ["build/new", "f", False], ["m", "f", True], ["m.THIS", "f", False],
+                ["m.BASE", "f", False], ["m.OTHER", "d", False], ["m.OTHER/inner", "f", False],
+                ["n", "d", False], ["n/.git", "G", False], ["n/x", "f", False],
+                ["w", "d", True], ["w/f", "f", True], ["w/.git", "G", False], ["w/e", "d", False], ["w/e/y", "f", False],
+                ["c.o", "f", False]],
+         ["build", "*.o"], [["text", "m"]]),
+     [(["."], True), (["old~"], True), (["c.o"], False), (["build"], True), (["n"], True), (["n/x"], True),
+      (["m.OTHER"], True), (["w/e"], True), ([".bzr/README"], True)]),
+]
+
+
 def run(ctx):
     viol, cases, lines, outs = [], [], [], []
+    for spec, choices in SCENARIOS:
+        run_layout(ctx, spec, viol, cases, lines, outs, choices=list(choices))
     specs = []
     cdir = os.path.join(env.VERIF, "corpus", "C11")
     if os.path.isdir(cdir):
